@@ -48,7 +48,7 @@ func init() {
 	vx.Register(&vx.Prop{
 		ID:    "C05",
 		Level: "exploration",
-		Rule: "Files built through NewHeader/NewFile/constructors: 17 file types x every container member (plus file_id / file_creator / timestamp_correlation) x {no field, each single field x each boundary value, all fields (two value sets), two messages with disjoint halves (union definition), three-message mixes} x byte order x header with/without CRC; every fifth File is encoded right after two Encode calls that fail part-way. " +
+		Rule: "Files built through NewHeader/NewFile/constructors: 17 file types x every container member (plus file_id / file_creator / timestamp_correlation) x {no field, each single field x each boundary value, all fields (two value sets), two messages with disjoint halves (union definition), three-message mixes} x byte order x header with/without CRC; every fifth File is encoded right after two Encode calls that fail part-way; Files with every member populated at once (4 variants of empty / one-field messages). " +
 			"Oracle: strict independent grammar parser (header size/type/data size, header and trailing CRC, every data record defined earlier, sizes multiples of base size, unique field numbers, exact end of data), every definition field listed in the profile with that base type and the profile's size, wire bytes = reference encoding of the Go values put in (arrays padded with invalid, strings NUL padded, times in seconds, local times as wall-clock seconds, semicircles), every set field present; File.Header.DataSize / Header.CRC / CRC equal to what was written. distinct = distinct encoded outputs",
 		Run: runC05,
 		Replay: func(raw json.RawMessage) (string, error) {
@@ -79,7 +79,17 @@ func c05Check(g genSpec) ([]byte, string, string) {
 	if err != nil {
 		return nil, "", "skip"
 	}
-	out, eerr, pn := safeEncode(f, g.Big)
+	exp := map[uint16][]reflect.Value{}
+	if g.Slot.Common != "FileId" {
+		exp[g.Slot.Mesg] = append(exp[g.Slot.Mesg], msgs...)
+	}
+	return c05EncodeAndValidate(f, exp, g.Big, g.HdrCRC)
+}
+
+// c05EncodeAndValidate encodes f and validates the bytes against the grammar, the profile and the reference
+// encoding of the messages in exp (per message number, in File order; file_id is added here).
+func c05EncodeAndValidate(f *fit.File, exp map[uint16][]reflect.Value, big, hdrCRC bool) ([]byte, string, string) {
+	out, eerr, pn := safeEncode(f, big)
 	if pn != "" {
 		return out, "Encode panics: " + pn, "encode-panic"
 	}
@@ -94,32 +104,30 @@ func c05Check(g genSpec) ([]byte, string, string) {
 		return out, "output is not canonical: " + p.Oddities[0], "grammar"
 	}
 	wantHS := byte(12)
-	if g.HdrCRC {
+	if hdrCRC {
 		wantHS = 14
 	}
 	if p.HeaderSize != wantHS {
 		return out, fmt.Sprintf("header size %d, File header says %d", p.HeaderSize, wantHS), "header"
 	}
-	if g.HdrCRC && p.HeaderCRC != fitmodel.CRC(out[:12]) {
+	if hdrCRC && p.HeaderCRC != fitmodel.CRC(out[:12]) {
 		return out, fmt.Sprintf("header CRC %#04x written, reference %#04x", p.HeaderCRC, fitmodel.CRC(out[:12])), "header"
 	}
 	if p.Proto != f.Header.ProtocolVersion || p.Profile != f.Header.ProfileVersion {
 		return out, "protocol/profile version bytes differ from File.Header", "header"
 	}
-	// File fields after the call
 	if f.Header.DataSize != p.DataSize {
 		return out, fmt.Sprintf("File.Header.DataSize=%d after Encode, %d written", f.Header.DataSize, p.DataSize), "file-fields/DataSize"
 	}
 	if f.CRC != p.FileCRC {
 		return out, fmt.Sprintf("File.CRC=%#04x after Encode, %#04x written", f.CRC, p.FileCRC), "file-fields/CRC"
 	}
-	if g.HdrCRC && f.Header.CRC != p.HeaderCRC {
+	if hdrCRC && f.Header.CRC != p.HeaderCRC {
 		return out, fmt.Sprintf("File.Header.CRC=%#04x after Encode, %#04x written", f.Header.CRC, p.HeaderCRC), "file-fields/Header.CRC"
 	}
-	// definitions: profile conformance
 	pr := prof()
 	for _, d := range p.Defs {
-		if d.Big != g.Big {
+		if d.Big != big {
 			return out, fmt.Sprintf("definition at %d uses the wrong architecture", d.Offset), "definition"
 		}
 		if d.DevFlag {
@@ -138,7 +146,6 @@ func c05Check(g genSpec) ([]byte, string, string) {
 			}
 		}
 	}
-	// data records per message number, in order
 	byMesg := map[uint16][]*fitmodel.ParsedRec{}
 	for _, r := range p.Recs {
 		byMesg[r.Def.Global] = append(byMesg[r.Def.Global], r)
@@ -146,14 +153,12 @@ func c05Check(g genSpec) ([]byte, string, string) {
 			return out, "compressed timestamp header emitted", "record"
 		}
 	}
-	// expected messages per type: file_id always, then the spec's messages
-	exp := map[uint16][]reflect.Value{}
-	exp[0] = []reflect.Value{reflect.ValueOf(f.FileId)}
-	if g.Slot.Common != "FileId" {
-		exp[g.Slot.Mesg] = append(exp[g.Slot.Mesg], msgs...)
+	all := map[uint16][]reflect.Value{0: {reflect.ValueOf(f.FileId)}}
+	for m, ms := range exp {
+		all[m] = append(all[m], ms...)
 	}
 	total := 0
-	for m, ms := range exp {
+	for m, ms := range all {
 		total += len(ms)
 		recs := byMesg[m]
 		if len(recs) != len(ms) {
@@ -173,9 +178,9 @@ func c05Check(g genSpec) ([]byte, string, string) {
 				}
 				var want []byte
 				if isInv && fv.Kind() == reflect.Slice {
-					want = wireOf(reflect.MakeSlice(fv.Type(), 0, 0), e, g.Big)
+					want = wireOf(reflect.MakeSlice(fv.Type(), 0, 0), e, big)
 				} else {
-					want = wireOf(fv, e, g.Big)
+					want = wireOf(fv, e, big)
 				}
 				if !bytes.Equal(wire, want) {
 					return out, fmt.Sprintf("message %d #%d field %d: wire bytes %x, reference encoding of %s is %x", m, i, e.Num, wire, fitmodel.Dump(fv), want), "value"
@@ -187,6 +192,75 @@ func c05Check(g genSpec) ([]byte, string, string) {
 		return out, fmt.Sprintf("%d data records written, File holds %d messages", len(p.Recs), total), "record-count"
 	}
 	return out, "", ""
+}
+
+// multiFile builds a File in which *every* member (and file_creator / timestamp_correlation) is populated at once.
+// variant 0: one all-invalid message everywhere; 1: one message with its first usable field; 2/3: alternating
+// empty / non-empty members, slices holding two messages (empty + one field, or the reverse).
+func multiFile(ft byte, variant int, hdrCRC bool) (*fit.File, map[uint16][]reflect.Value) {
+	f, err := fit.NewFile(fit.FileType(ft), fit.NewHeader(fit.V20, hdrCRC))
+	if err != nil {
+		return nil, nil
+	}
+	fid := fit.VerifNewMesg(0)
+	fid.FieldByName("Type").SetUint(uint64(ft))
+	f.FileId = fid.Interface().(fit.FileIdMsg)
+	exp := map[uint16][]reflect.Value{}
+	p := prof()
+	mk := func(m uint16, withField bool, salt int) reflect.Value {
+		mv := fit.VerifNewMesg(fit.MesgNum(m))
+		if withField {
+			for _, e := range p.byMesg[m] {
+				if genValue(mv.Field(e.Sindex), e, 0, salt) {
+					break
+				}
+			}
+		}
+		return mv
+	}
+	idx := 0
+	want := func() []bool {
+		idx++
+		switch variant {
+		case 0:
+			return []bool{false}
+		case 1:
+			return []bool{true}
+		case 2:
+			if idx%2 == 0 {
+				return []bool{false, true}
+			}
+			return []bool{false}
+		}
+		if idx%2 == 0 {
+			return []bool{true, false}
+		}
+		return []bool{true}
+	}
+	fc := mk(uint16(fit.MesgNumFileCreator), want()[0], 1)
+	f.FileCreator = fc.Addr().Interface().(*fit.FileCreatorMsg)
+	exp[uint16(fit.MesgNumFileCreator)] = []reflect.Value{fc}
+	tc := mk(uint16(fit.MesgNumTimestampCorrelation), want()[0], 2)
+	f.TimestampCorrelation = tc.Addr().Interface().(*fit.TimestampCorrelationMsg)
+	exp[uint16(fit.MesgNumTimestampCorrelation)] = []reflect.Value{tc}
+	c := container(f)
+	for _, sl := range hosts()[ft] {
+		fv := c.Elem().Field(sl.Index)
+		ws := want()
+		if !sl.IsSlice {
+			ws = ws[len(ws)-1:]
+		}
+		for i, wf := range ws {
+			mv := mk(sl.Mesg, wf, 3+i)
+			if sl.IsSlice {
+				fv.Set(reflect.Append(fv, mv.Addr()))
+			} else {
+				fv.Set(mv.Addr())
+			}
+			exp[sl.Mesg] = append(exp[sl.Mesg], mv)
+		}
+	}
+	return f, exp
 }
 
 func runC05(w *vx.W) {
@@ -220,6 +294,28 @@ func runC05(w *vx.W) {
 			}
 			if k == 5000 {
 				w.Sample(map[string]interface{}{"spec": g.json(), "encoded_hex": vx.Hex(out)})
+			}
+		}
+	}
+	// Files in which every member is populated at once (adjacent messages of different types, empty and not)
+	for _, t := range fileTypes {
+		for variant := 0; variant < 4; variant++ {
+			for c := 0; c < 4; c++ {
+				k++
+				if !w.Mine(k) {
+					continue
+				}
+				f, exp := multiFile(byte(t.Type), variant, c&1 == 0)
+				if f == nil {
+					continue
+				}
+				out, msg, class := c05EncodeAndValidate(f, exp, c&2 != 0, c&1 == 0)
+				w.Eval(1)
+				w.Fam("multi-member-files", 1)
+				w.Distinct(vx.HashB(out))
+				if msg != "" {
+					w.Violation(class, fmt.Sprintf("%s file with every member populated (variant %d), big=%v hdrcrc=%v: %s", t.Name, variant, c&2 != 0, c&1 == 0, msg), map[string]interface{}{"file_type": t.Type, "variant": variant, "encoded_hex": vx.Hex(out)})
+				}
 			}
 		}
 	}
